@@ -46,6 +46,9 @@ func c15Corpus(absTarget string) []string {
 		"x/", "a//x", "a/../x", "./x", "sub/./x",
 		"/../x", "//../x", "/sub/../../x", "/sub/x", "/x", "\\/../x",
 		"..\\x", "sub\\..\\..\\x", "\\..\\x", "sub/..\\../x", "a\\x",
+		// parent references that only appear after one round of stripping, and
+		// ones followed by ordinary components
+		"....//x", "..././x", "....//....//x", ".../...//x", "..//x", "../sub/x", "../sibling/new", "a/../../sub/deep/x", "a/../../sibling/x", "./.././sub/x", "../a/b/c/d/x", "sub/../../work/x", ".../../../x",
 		"ab\x00../x", "../x\x00tail", long, "../" + long, ".hidden", "..hidden", "...", "a/..", "a/../..", "a/.../x", " ../x", "../x ", "~/x", "$HOME/x",
 	}
 }
